@@ -18,7 +18,7 @@ FNAMES = ["fa", "fb", "-"]
 SIG_MUT = ["sname", "sfile", "ssetmh", "saddseq", "saddprot"]
 SIG_COPY = ["stomut", "stofrozen", "scopy", "spickle", "supdflat", "supdname", "sgatherinit"]
 SIG_RO = ["md5", "eq", "sim", "save", "pickle", "copies", "mhmut", "compare", "insertinto", "insertinto"]
-VIEW_RO_Q = ["search", "searchc", "prefetch", "best", "gather", "gatheri", "interleave"]
+VIEW_RO_Q = ["search", "searchc", "prefetch", "best", "gather", "gatheri", "cgather", "interleave"]
 VIEW_RO_0 = ["sigs", "locs", "manifest", "picklist"]
 SAVE_ANY = ["saveto0", "saveto1", "saveto2", "saveto3"]
 SAVE_BY_KIND = {"vsbt": ["save", "save", "savefs", "savefs"], "vsbtload": ["save", "savefs"], "vlinear": ["savesig", "savesig"],
@@ -228,10 +228,44 @@ def gen_obj_case(rng, flavour):
             return f"vlca {nv - 1} {some_sigs(1, 4, named=True)}"
         return f"{k} {nv - 1} {some_sigs(0 if k == 'vlinear' else 1, 4)}".rstrip()
 
+    ORDERED = ("vlinear", "vlazy", "vmulti", "vzip0", "vzip1", "vstandalone", "vsqlite")
+
+    def from_views():
+        """constructors that take EXISTING views as input (and may only read them)"""
+        nonlocal nv
+        cands = [(x, kk) for x, kk in views if kk in ORDERED]
+        if not cands:
+            return new_view()
+        x, kk = rng.choice(cands)
+        r = rng.random()
+        nv += 1
+        if r < 0.5:
+            ins = [rng.choice(cands) for _ in range(rng.choice([1, 1, 2, 2, 3]))]
+            if rng.random() < 0.5:
+                multis = [c for c in cands if c[1] == "vmulti"]
+                if multis:
+                    ins[0] = rng.choice(multis)          # a live MultiIndex as input of another one
+            views.append((nv - 1, "vmulti"))
+            toks = " ".join(f"{a}:{rng.choice(['-', '-', 'la', 'lb'])}" for a, _ in ins)
+            return f"vmultiof {nv - 1} {rng.randint(0, 1)} {toks}"
+        if r < 0.7:
+            kind = rng.choice([0, 0, 1, 2])
+            views.append((nv - 1, ["vlinear", "vsbt", "vlca"][kind]))
+            return f"vfrom {nv - 1} {kind} {x}"
+        if r < 0.8:
+            st = [a for a, k2 in views if k2 == "vstandalone"]
+            if st:
+                views.append((nv - 1, "vstandalone"))
+                return f"vstandof {nv - 1} {rng.choice(st)}"
+        views.append((nv - 1, "vmulti"))
+        return f"vmpath {nv - 1} {rng.randint(0, 2)} {x}"
+
     def view_op():
         nonlocal nv, ns
         if not views or (len(views) < 4 and rng.random() < 0.3):
             return new_view()
+        if rng.random() < 0.12:
+            return from_views()
         v, k = rng.choice(views)
         r = rng.random()
         if r < 0.38:
@@ -259,6 +293,11 @@ def gen_obj_case(rng, flavour):
                 a_, b_ = rng.choice(mfv), rng.choice(mfv)
                 return f"vmf {rng.choice(['add', 'add', 'add', 'eq', 'in', 'select', 'filter', 'misc'])} {a_} {b_}" + \
                     (f" {S()} {S()}" if rng.random() < 0.5 else "")
+            sb = [x for x, kk in views if kk in ("vsbt", "vsbtload")]
+            if sb and rng.random() < 0.08:
+                return f"vmf combine {rng.choice([x for x, _ in views])} {rng.choice(sb)} {S()}"
+            if mfv and rng.random() < 0.08:
+                return f"vmf {rng.choice(['wrap', 'getmf'])} {rng.choice(mfv)} {rng.choice([x for x, _ in views])}"
             if rr < 0.04:
                 return f"sro insertinto {S()}" + (f" {S()}" if rng.random() < 0.5 else "")
             if rr < 0.3:
@@ -379,7 +418,7 @@ def gen_mh_case(rng, flavour):
 MH_RESULT = {"tomut", "tofrozen", "copy", "flat", "down", "sigmh", "plus", "inter", "new", "smh", "scg"}
 SIG_RESULT = {"snew", "stomut", "stofrozen", "scopy", "spickle", "supdflat", "supdname", "sgatherinit", "vget"}
 VIEW_RESULT = {"vlinear", "vlazy", "vzip", "vmulti", "vstandalone", "vsbt", "vlca", "vsel", "vselpick",
-               "vsbtload", "vsqlite", "vlcaload", "vzipg"}
+               "vsbtload", "vsqlite", "vlcaload", "vzipg", "vmultiof", "vfrom", "vstandof", "vmpath"}
 MH_RECV = {"add", "addab", "addmany", "rm", "clear", "merge", "setab", "settrack", "intofrozen"}
 SIG_RECV = {"ssetmh", "sname", "sfile", "saddseq", "saddprot", "ssetstate", "sintofrozen"}
 SIG_FRESH = {"stomut", "spickle", "supdflat", "supdname", "sgatherinit"}
@@ -463,6 +502,9 @@ def oracle(case, impl):
             elif res.startswith("err InputModified"):
                 bad.append((idx, f"C15:input-modified:{o}:" + w[1] if o != "ro" else "C15:input-modified:" + w[1],
                             f"`{op}` modified a signature passed to it"))
+            elif res.startswith("err ViewChanged") and o == "vmf":
+                bad.append((idx, f"C15:view-changed:vmf:{w[1]}",
+                            f"`{op}`: a call that only READS the two collections changed what one of them answers"))
             elif res.startswith("err ViewChanged"):
                 kind = prev["v"].get(int(w[2]), (None, "?", None))[1] if len(w) > 2 and w[2].isdigit() else "?"
                 bad.append((idx, f"C15:view-changed:{kind}-save",
